@@ -183,8 +183,8 @@ func ParseRequest(ctx context.Context, lmd *Daemon, c net.Conn) (req *Request, e
 
 // ParseRequests reads from a connection and returns all requests read.
 // It returns a list of requests and any errors encountered.
-func ParseRequests(ctx context.Context, lmd *Daemon, c net.Conn) (reqs []*Request, err error) {
-	b := bufio.NewReader(c)
+// The reader has to be the same for all calls on one connection, it may hold bytes of the next request already.
+func ParseRequests(ctx context.Context, lmd *Daemon, c net.Conn, b *bufio.Reader) (reqs []*Request, err error) {
 	localAddr := c.LocalAddr().String()
 	eof := false
 	for {
